@@ -96,13 +96,15 @@ func (r *returnsRunner) execute(cmd *cobra.Command, args []string) error {
 		AccountFilter:   predicate.ByName[*model.Account](r.accounts.Regex()),
 		CommodityFilter: predicate.ByName[*model.Commodity](r.commodities.Regex()),
 	}
+	// Perf adds the period end days to the journal: it has to run before the journal is built.
+	perf := performance.Perf(j, partition)
 	err = j.Build().Process(
 		journal.ComputePrices(valuation),
 		check.Check(),
 		journal.Valuate(reg, valuation),
 		calculator.ComputeValues(),
 		calculator.ComputeFlows(),
-		performance.Perf(j, partition),
+		perf,
 	)
 	return err
 }
